@@ -102,13 +102,46 @@ def anchors_for(prop_id, verif_dir):
     return res
 
 
+def line_map(srcdir, rel):
+    """properties.jsonl anchors use line numbers of the pinned commit; map them to the
+    working tree with the hunks of `git diff <root commit>` (identity when git says nothing)"""
+    import subprocess
+
+    repo = os.path.dirname(os.path.realpath(srcdir))
+    hunks = []
+    try:
+        root = subprocess.run(["git", "-C", repo, "rev-list", "--max-parents=0", "HEAD"], capture_output=True, text=True,
+                              timeout=20).stdout.split()[0]
+        out = subprocess.run(["git", "-C", repo, "diff", "-U0", root, "--", os.path.join("src", rel)], capture_output=True,
+                             text=True, timeout=20).stdout
+        for m in re.finditer(r"^@@ -(\d+)(?:,(\d+))? \+(\d+)(?:,(\d+))? @@", out, re.M):
+            a, b, c, d = int(m.group(1)), int(m.group(2) or 1), int(m.group(3)), int(m.group(4) or 1)
+            hunks.append((a, b, c, d))
+    except Exception:
+        hunks = []
+
+    def f(line):
+        delta = 0
+        for a, b, c, d in hunks:
+            end = a + b - 1 if b else a
+            if end < line:
+                delta += d - b
+        return line + delta
+
+    return f
+
+
 def table(prop_id, verif_dir, srcdir, hits):
     """per anchored mechanism: body lines hit / body lines present in its range"""
     hitset = {(a, b) for a, b in hits}
     cache = {}
     rows = []
+    maps = {}
     for name, rel, ranges in anchors_for(prop_id, verif_dir):
         path = os.path.join(srcdir, rel)
+        if rel not in maps:
+            maps[rel] = line_map(srcdir, rel)
+        ranges = [(maps[rel](lo), maps[rel](hi)) for lo, hi in ranges]
         if rel not in cache:
             try:
                 cache[rel] = body_lines(path)
